@@ -323,6 +323,13 @@ class Model:
                     labs.append(ind * 3 + '<label kind="assignment">' + block(', '.join(R(u) for u in e.update)) + '</label>')
                 if e.prob is not None:
                     labs.append(ind * 3 + '<label kind="probability">' + block(R(e.prob)) + '</label>')
+                if nz.get('edge_label_order'):
+                    # the DTD does not order the labels of a transition; the select label need not come first
+                    eo = (nz['edge_label_order'] * 2654435761 + len(out)) % (1 << 31)
+                    for k_ in range(len(labs) - 1, 0, -1):
+                        eo = (eo * 1103515245 + 12345) % (1 << 31)
+                        j_ = (eo >> 8) % (k_ + 1)
+                        labs[k_], labs[j_] = labs[j_], labs[k_]
                 out += sprinkle(labs, ind * 3)
                 if nz.get('nails'):
                     out.append(ind * 3 + '<nail x="1" y="1"/>')
@@ -702,6 +709,8 @@ def models(draw, max_templates=3, sizes='normal', for_xta=False, need_clean=Fals
         m.noise = {'extra_labels': draw(st.integers(1, 10 ** 6))}
     if draw(st.integers(0, 5)) == 0:            # a sixth spell their character data in pieces (XML comments, CDATA sections)
         m.noise['split'] = draw(st.integers(1, 10 ** 6))
+    if draw(st.integers(0, 3)) == 0:            # a quarter list the labels of a transition in another order than select, guard, sync, update
+        m.noise['edge_label_order'] = draw(st.integers(1, 10 ** 6))
     if draw(st.integers(0, 3)) == 0:            # a quarter have white space and line breaks around the names of templates and locations
         m.noise['name_ws'] = draw(st.integers(1, 10 ** 6))
     used = set()
